@@ -121,7 +121,10 @@ def install():
                 allowed = set(vals) | ({0.0, 1.0} if vals <= {0.0, 1.0} else {-1.0, 1.0})
                 if isinstance(mod, BinaryErasureChannel):
                     allowed.add(float(mod.erasure_symbol))
-                out_vals = set(torch.unique(output.double()).tolist())
+                od = output.double()
+                if any(a != a for a in allowed):  # a NaN erasure symbol: NaN outputs are in the alphabet
+                    od = od[~torch.isnan(od)]
+                out_vals = set(torch.unique(od).tolist())
                 if not out_vals <= allowed:
                     _viol(f"C12|online contract|{cname}|support|output outside alphabet", values=sorted(out_vals)[:6])
             else:
